@@ -9,7 +9,7 @@ from . import c02
 
 PROPERTY = "C21"
 LEVEL = "translation_validation"
-FUNCTIONS = [("pandapower.converter.pypower.from_ppc", "_from_ppc_branch"), ("pandapower.converter.pypower.from_ppc", "_from_ppc_bus"),
+FUNCTIONS = [("pandapower.converter.pypower.to_ppc", "to_ppc"), ("pandapower.pd2ppc", "_pd2ppc"), ("pandapower.converter.pypower.from_ppc", "_from_ppc_branch"), ("pandapower.converter.pypower.from_ppc", "_from_ppc_bus"),
              ("pandapower.converter.pypower.from_ppc", "_branch_to_which"), ("pandapower.build_branch", "_calc_line_parameter"),
              ("pandapower.build_branch", "_calc_trafo_parameter"), ("pandapower.build_branch", "_calc_impedance_parameter"),
              ("pandapower.pypower.makeYbus", "branch_vectors")]
@@ -149,11 +149,128 @@ def make_bus():
     return fn
 
 
+_RT = {}
+
+
+def _rt_net(tap=True):
+    if tap not in _RT:
+        net = pp.create_empty_network(sn_mva=10.)
+        b0 = pp.create_bus(net, 110.)
+        b1, b2, b3 = (pp.create_bus(net, 20.) for _ in range(3))
+        pp.create_ext_grid(net, b0)
+        pp.create_transformer_from_parameters(net, b0, b1, 40, 110, 20, 0.3, 12, 20, 0.05, tap_side="hv", tap_neutral=0, tap_min=-2, tap_max=2,
+                                              tap_step_percent=1.5, tap_pos=1 if tap else 0, tap_changer_type="Ratio")
+        pp.create_line_from_parameters(net, b1, b2, 2., 0.1, 0.3, 10., 1., g_us_per_km=2.)
+        pp.create_line_from_parameters(net, b1, b3, 3., 0.2, 0.3, 10., 1., in_service=False)
+        pp.create_line_from_parameters(net, b2, b3, 1., 0.1, 0.2, 12., 1.)
+        pp.create_load(net, b3, 1., 0.5)
+        pp.runpp(net, numba=False, lightsim2grid=False, trafo_model="pi", calculate_voltage_angles=True, check_connectivity=False)
+        _RT[tap] = net
+    return _RT[tap]
+
+
+def make_round_trip(tap=True):
+    """the real to_ppc on a net with symbolic line / transformer parameters (and an out-of-service line), its output through the real
+    _from_ppc_branch, the captured elements through the real builders again: every branch that is part of the exported case comes back
+    with the two-port it was exported with (incl. line conductance and transformer iron losses)"""
+    def fn(ctx):
+        tp = ctx.load("pandapower.converter.pypower.to_ppc")
+        fp = ctx.load("pandapower.converter.pypower.from_ppc")
+        bb = ctx.load("pandapower.build_branch")
+        mY = ctx.load("pandapower.pypower.makeYbus")
+        from pandapower.pypower.idx_brch import BR_G, branch_cols, F_BUS, T_BUS
+        net = copy.deepcopy(_rt_net(tap))
+        L = {c: ctx.var("line_" + c, *r) for c, r in {"r_ohm_per_km": (0.01, 1.), "x_ohm_per_km": (0.01, 1.), "c_nf_per_km": (1., 300.), "g_us_per_km": (0., 10.), "length_km": (0.1, 20.)}.items()}
+        for c, v in L.items():
+            col = list(net.line[c].values.astype(float))
+            col[0] = v
+            setcol(ctx, net.line, c, col)
+        vk, m = ctx.var("vk_percent", 4., 20.), ctx.var("m_vkr", 0.5, 0.98)
+        i0, nn = ctx.var("i0_percent", 0.01, 1.), ctx.var("n_pfe", 0.05, 0.95)
+        T = {"vk_percent": vk, "vkr_percent": vk * (1 - m * m) / (1 + m * m), "i0_percent": i0,
+             "pfe_kw": i0 / 100 * 40. * (1 - nn * nn) / (1 + nn * nn) * 1000}
+        for c, v in T.items():
+            setcol(ctx, net.trafo, c, [v])
+        net._options["recycle"] = None
+        ppc = tp.to_ppc(net, init="flat", trafo_model="pi", calculate_voltage_angles=True, check_connectivity=False)
+        nbr = ppc["branch"].shape[0]
+        ctx.true("out_of_service_line_is_not_exported", nbr == 3)
+        g_col = ppc.get("branch_g", np.zeros(nbr))
+        ctx.true("one_conductance_entry_per_exported_branch", len(g_col) == nbr)
+        orig = []
+        for k in range(nbr):
+            row = ctx.obj(np.zeros(branch_cols))
+            row[:21] = ppc["branch"][k, :21]
+            row[BR_G] = g_col[k] if len(g_col) == nbr else 0.0
+            orig.append(c02._two_port(ctx, mY, row))
+        cap = {}
+
+        def grab(name):
+            def f_(net_, *a, **kw):
+                cap[name] = kw
+                return np.arange(len(next(iter(kw.values()))) if kw else 0)
+            return f_
+        net2 = copy.deepcopy(_rt_net(tap))
+        ppc_in = dict(ppc)
+        ppc_in["branch"] = ppc["branch"].copy()
+        with patched(fp, create_lines_from_parameters=grab("line"), create_transformers_from_parameters=grab("trafo"), create_impedances=grab("impedance")):
+            fp._from_ppc_branch(net2, ppc_in, 50)
+        tkey = "trafo" if tap else "impedance"       # a transformer at nominal ratio is imported as an impedance element (different voltage levels, no tap)
+        ctx.true("two_lines_and_one_transformer_come_back", "line" in cap and tkey in cap and len(cap["line"]["r_ohm_per_km"]) == 2 and len(cap[tkey]["sn_mva"]) == 1)
+        if "line" not in cap or tkey not in cap:
+            return
+        # rebuild: net2 keeps lines 0 and 2 (the exported ones) with the imported parameters
+        net2.line = net2.line.drop(1).reset_index(drop=True)
+        net2._is_elements = None
+        kwl, kwt = cap["line"], cap[tkey]
+        for c in ("length_km", "r_ohm_per_km", "x_ohm_per_km", "c_nf_per_km", "g_us_per_km"):
+            v = kwl[c]
+            vals = [v, v] if np.ndim(v) == 0 else list(v)
+            setcol(ctx, net2.line, c, vals)
+        first = lambda v: (v[0] if np.ndim(v) > 0 else v)
+        if tap:
+            for c in ("sn_mva", "vn_hv_kv", "vn_lv_kv", "vk_percent", "vkr_percent", "pfe_kw", "i0_percent", "shift_degree", "tap_step_percent", "tap_pos"):
+                setcol(ctx, net2.trafo, c, [first(kwt[c])])
+            net2.trafo["tap_side"] = kwt["tap_side"]
+            net2.trafo["tap_neutral"] = 0
+            net2.trafo["tap_changer_type"] = first(kwt["tap_changer_type"])
+        else:
+            hv, lv = int(net2.trafo.hv_bus.values[0]), int(net2.trafo.lv_bus.values[0])
+            net2.trafo = net2.trafo.iloc[0:0]
+            pp.create_impedance(net2, int(first(kwt["from_buses"])), int(first(kwt["to_buses"])), 0.01, 0.01, 10.)
+            for c in ("rft_pu", "xft_pu", "rtf_pu", "xtf_pu", "bf_pu", "gf_pu", "gt_pu", "bt_pu", "sn_mva"):
+                setcol(ctx, net2.impedance, c, [first(kwt[c])])
+        p2 = ctx.load("pandapower.pd2ppc")
+        net2._options["recycle"] = None
+        pp2, ppci2 = p2._pd2ppc(net2)
+        back = {}
+        for k in range(ppci2["branch"].shape[0]):
+            key = (int(ppci2["branch"][k, F_BUS].real), int(ppci2["branch"][k, T_BUS].real))
+            back[key] = c02._two_port(ctx, mY, ppci2["branch"][k])
+        for k in range(nbr):
+            key = (int(ppc["branch"][k, F_BUS].real), int(ppc["branch"][k, T_BUS].real))
+            ctx.true(f"branch{k}_comes_back_between_the_same_buses", key in back)
+            if key not in back:
+                continue
+            for q in orig[k]:
+                # tolerance: the second line keeps its concrete (float) parameters, see DESIGN 8.2
+                a_, b_ = back[key][q], orig[k][q]
+                if hasattr(a_, "imag") and hasattr(b_, "imag"):
+                    ctx.close(f"round_trip_two_port/branch{k}/{q}.re", a_.real, b_.real, 1e-7)
+                    ctx.close(f"round_trip_two_port/branch{k}/{q}.im", a_.imag, b_.imag, 1e-7)
+                else:
+                    ctx.close(f"round_trip_two_port/branch{k}/{q}", a_, b_, 1e-7)
+    return fn
+
+
 def instances(tier):
     return [Inst(f"branch_{k}", make_branch(k), nvars=24, samples=3, timeout_ms=60000, raises=(UserWarning,), meta=dict(branch=k)) for k in ("line", "trafo", "impedance")] + \
            [Inst(f"branch_trafo_tap_{side}_{nm}", make_branch("trafo", side, rng), nvars=24, samples=3, timeout_ms=60000, raises=(UserWarning,),
                  meta=dict(branch="trafo", tap_side=side, tap=nm))
             for side, nm, rng in (("hv", "below_nominal", (0.9, 0.995)), ("lv", "above_nominal", (1.005, 1.1)), ("lv", "below_nominal", (0.9, 0.995)))] + \
+           [Inst(f"round_trip_to_ppc_from_ppc_{nm}", make_round_trip(tp_), nvars=40, samples=2, timeout_ms=60000, raises=(UserWarning,),
+                 meta=dict(part="to_ppc -> from_ppc", net="trafo with iron losses (%s), line with conductance, out-of-service line" % nm))
+            for nm, tp_ in (("tapped_trafo", True), ("nominal_ratio_trafo", False))] + \
            [Inst("bus_injections", make_bus(), nvars=16, samples=3, meta=dict(part="bus"))]
 
 
